@@ -60,7 +60,7 @@ static inline std::string proto_name(int na, int nd) { return S("p_%d_%d", na, n
 struct MirEmitter {
   std::string out; std::vector<std::string> pend; int lab = 0; const Json *fn = nullptr; std::string fname;
   std::vector<std::pair<std::string, std::vector<std::string>>> lrefs;  // table name -> labels
-  std::set<std::string> called, icalled; std::set<std::pair<int, int>> protos; bool uses_ext = false, uses_mem = false;
+  std::set<std::string> called, icalled; std::set<std::pair<int, int>> protos; bool uses_ext = false, uses_mem = false; std::set<int> extn_sizes;
   const std::map<std::string, FuncInfo> *sigs = nullptr;
   int loop_depth = 0;
 
@@ -124,6 +124,12 @@ struct MirEmitter {
       icalled.insert(st[2].s);
       insn("mov t0, r_" + st[2].s); insn("mov t0, i64:(t0)"); emit_call("t0", opnd(st[1]), st[2].s, st[3]);
     } else if (k == "ext") { uses_ext = true; insn("call p_ext, ext, " + opnd(st[1]) + ", " + opnd(st[2]) + ", " + opnd(st[3])); }
+    else if (k == "extn") {  // external with many integer arguments (first = count): long argument lists of the FFI / stack-passing paths
+      int n = (int) st[2].num(); extn_sizes.insert(n);
+      std::string s2 = S("call p_extn_%d, extn, ", n) + opnd(st[1]) + ", " + std::to_string(n);
+      for (int i = 1; i <= n; i++) { if (i <= 3) { insn(S("add t1, ", 0) + opnd(st[3]) + ", " + std::to_string(i)); insn(S("mov x%d, t1", i)); s2 += S(", x%d", i); } else s2 += ", " + std::to_string(i * 7); }
+      insn(s2);
+    }
     else if (k == "sw" || k == "jt" || k == "lt" || k == "ld") {
       const Json &cs = st[2]; size_t n = cs.size(); std::vector<std::string> labs; for (size_t i = 0; i < n; i++) labs.push_back(newlab());
       std::string end = newlab();
@@ -172,11 +178,11 @@ struct MirEmitter {
     if (f.geti("fuel")) { std::string ls = newlab(); insn("bgt " + ls + ", a0, 0"); ret_block(Json(7)); label(ls); insn("mov t2, t2"); }
     std::string pro = out; out.clear();
     if (f.geti("gv")) { head += "\n\tglobal i64:gvr:r8"; pro = "\tmov gvr, " + std::to_string((long long) f.geti("gv")) + "\n" + pro + "\tadd v0, v0, gvr\n"; }
-    return head + "\n\tlocal d:fd0, d:fd1, i64:v0, i64:v1, i64:v2, i64:v3, i64:v4, i64:v5, i64:t0, i64:t1, i64:t2, i64:p, i64:buf, i64:lc0, i64:lc1, i64:lc2\n" + pro + body_txt + "\tendfunc\n";
+    return head + "\n\tlocal i64:x1, i64:x2, i64:x3, d:fd0, d:fd1, i64:v0, i64:v1, i64:v2, i64:v3, i64:v4, i64:v5, i64:t0, i64:t1, i64:t2, i64:p, i64:buf, i64:lc0, i64:lc1, i64:lc2\n" + pro + body_txt + "\tendfunc\n";
   }
   // whole module; `all` maps every function name of the *program* to its signature
   std::string module(const Json &m, const std::map<std::string, FuncInfo> &all) {
-    sigs = &all; called.clear(); icalled.clear(); protos.clear(); lrefs.clear(); uses_ext = false;
+    sigs = &all; called.clear(); icalled.clear(); protos.clear(); lrefs.clear(); uses_ext = false; extn_sizes.clear();
     std::set<std::string> defined; for (auto &f : m.at("funcs").a) defined.insert(f.gets("name"));
     std::string funcs_txt; std::vector<std::pair<std::string, std::vector<std::string>>> all_lrefs;
     std::vector<std::string> ftxt;
@@ -187,11 +193,13 @@ struct MirEmitter {
     for (auto &f : m.at("funcs").a) if (f.geti("exp", 1)) r += "\texport " + f.gets("name") + "\n";
     std::set<std::string> imports; for (auto &c : called) if (!defined.count(c)) imports.insert(c); for (auto &c : icalled) if (!defined.count(c)) imports.insert(c);
     if (uses_ext) imports.insert("ext");
+    if (!extn_sizes.empty()) imports.insert("extn");
     for (auto &i : imports) r += "\timport " + i + "\n";
     if (!fwd_first) for (auto &f : m.at("funcs").a) if (called.count(f.gets("name")) || icalled.count(f.gets("name"))) r += "\tforward " + f.gets("name") + "\n";
     for (auto &l : all_lrefs) r += "\tforward " + l.first + "\n";
     for (auto &p : protos) { r += proto_name(p.first, p.second) + ":\tproto i64"; for (int i = 0; i < p.first; i++) r += S(", i64:a%d", i); for (int i = 0; i < p.second; i++) r += S(", d:d%d", i); r += "\n"; }
     if (uses_ext) r += "p_ext:\tproto i64, i64:t, i64:v\n";
+    for (int n : extn_sizes) { r += S("p_extn_%d:\tproto i64, i64:n", n); for (int i = 1; i <= n; i++) r += S(", i64:a%d", i); r += "\n"; }
     for (auto &c : icalled) r += "r_" + c + ":\tref " + c + ", 0\n";
     for (auto &t : ftxt) r += t;
     r += "\tendmodule\n";
@@ -320,6 +328,10 @@ struct Model {
         const Json *callee = resolve(fr.mod, k == "icall" ? st[2].s + "#i" : st[2].s); int64_t r = 0;  // "#i": indirect call through a ref data item
         if (callee) r = call(*callee, args); else { missing = st[2].s; overrun = true; }
         setv(st[1], fr, r);
+      } else if (k == "extn") {
+        int64_t n = st[2].num(), v = val(st[3], fr); log.push_back({100 + n, v}); uint64_t r = (uint64_t) n;
+        for (int64_t i = 1; i <= n; i++) r = r * 31 + (uint64_t) (i <= 3 ? v + i : i * 7);
+        setv(st[1], fr, (int64_t) r);
       } else if (k == "ext") { int64_t tag = val(st[2], fr), v = val(st[3], fr); log.push_back({tag, v}); int64_t r = ext ? ext(tag, v, *this) : v * 3 + tag; setv(st[1], fr, r); }
       else if (k == "sw") { uint64_t s = (uint64_t) val(st[1], fr); run(st[2][s % st[2].size()], fr); }
       else if (k == "jt" || k == "lt" || k == "ld") { int64_t v = val(st[1], fr); log.push_back({9, v}); uint64_t s = (uint64_t) (ext ? ext(9, v, *this) : v * 3 + 9); size_t ci = s % st[2].size(); log.push_back({(int64_t) (20 + ci), 0}); if (ext) ext((int64_t) (20 + ci), 0, *this); run(st[2][ci], fr); }
@@ -349,7 +361,7 @@ struct Model {
 // ------------------------------------------------------------------------------------------------ generator
 struct GenOpts {
   int nmods = 2, nfuncs = 3, body = 6; bool lref = true, jt = true, icall = true, ext = true, mem = true, loops = true, doubles = true, recursion = true, sw = true;
-  int max_na = 8; int sw_weight = 8; bool gvar = true, fpbranch = true, ldiff = true;
+  int max_na = 8; int sw_weight = 8; bool gvar = true, fpbranch = true, ldiff = true, extn = false;
 };
 struct Generator {
   Rng &r; GenOpts o; std::vector<FuncInfo> fs; int cur = 0; int depth = 0; bool in_loop = false;
@@ -394,7 +406,8 @@ struct Generator {
       if (fs[j].cgoto || fs[j].gv) ic = true;
       if (ic && !o.icall) return stmt_simple();
       s.push(ic ? "icall" : "call"); s.push(dst()); s.push(fs[j].name); s.push(args_for(j, j <= cur));
-    } else if (c < 74 && o.ext) { s.push("ext"); s.push(dst()); s.push((int) r.range(1, 6)); s.push(src()); }
+    } else if (c < 68 && o.extn) { static const int ns[] = {7, 20, 63, 65, 70}; s.push("extn"); s.push(dst()); s.push(ns[r.below(5)]); s.push(src(false)); }
+    else if (c < 74 && o.ext) { s.push("ext"); s.push(dst()); s.push((int) r.range(1, 6)); s.push(src()); }
     else if (c < 74 + (unsigned) o.sw_weight && o.sw) {
       depth++; s.push("sw"); s.push(src(false)); Json cs = Json::array(); int n = (int) r.range(2, 4); for (int i = 0; i < n; i++) cs.push(block((int) r.range(1, 2))); s.push(cs); depth--;
     } else if (c < 90 && o.mem) { static const char *ty[] = {"i8", "u8", "i16", "u16", "i32", "u32", "i64"}; s.push("mem"); s.push(dst()); s.push(src()); s.push(ty[r.below(7)]); s.push((int) (8 * r.below(7))); }
